@@ -444,6 +444,25 @@ def build_native(outdir: Path):
     return exe, "built"
 
 
+def build_abi(outdir: Path):
+    """shared object with a C ABI around the working tree's raw_io.cc (no sanitizers) for the ctypes route"""
+    cpp = vlib.SRC / "besio" / "cpp"
+    outdir.mkdir(parents=True, exist_ok=True)
+    srcs = [cpp / "raw_io.cc", cpp / "raw_io.hh", vlib.VERIF / "native" / "rawabi.cc",
+            vlib.VERIF / "native" / "shim" / "pybind11" / "pybind11.h"]
+    so = outdir / ("librawabi_" + src_digest(srcs) + ".so")
+    if so.exists():
+        return so, "cached"
+    tmp = str(so) + ".tmp%d" % os.getpid()
+    cmd = ["clang++", "-std=c++20", "-O1", "-fPIC", "-shared", "-I", str(vlib.VERIF / "native" / "shim"), "-I", str(cpp),
+           str(cpp / "raw_io.cc"), str(vlib.VERIF / "native" / "rawabi.cc"), "-o", tmp]
+    rc, so_, se = vlib.sh(cmd, timeout=300)
+    if rc != 0:
+        return None, (se or so_)[-3000:]
+    os.replace(tmp, so)
+    return so, "built"
+
+
 def build_model(outdir: Path):
     """extract the Gallina model (coq/Extract/RawExtract.v) and build the OCaml driver; returns (path | None, log)"""
     outdir.mkdir(parents=True, exist_ok=True)
